@@ -76,6 +76,32 @@ def drv_seq(keys, seq):
     return snaps, e, s, lib.blocks
 
 
+def mk_mw(kind, order=None, cs=None):
+    if kind == "alpha":
+        return SortFieldsAlphabeticallyMiddleware(True)
+    if kind == "norm":
+        return NormalizeFieldKeys(True)
+    return SortFieldsCustomMiddleware(order=tuple(order), case_sensitive=cs, allow_inplace_modification=True)
+
+
+def drv_reuse(keys, keys2, kind, order, cs):
+    """ONE middleware instance: a library of two entries (keys, keys2), then a second library (keys2 alone).  Every entry
+    must come out as it does from a fresh instance that sees it alone."""
+    mw = mk_mw(kind, order, cs)
+    e1, s1, lib1 = mk_lib(keys)
+    e2 = Entry("article", "second", [Field(k, "w" + str(i), len(keys2) - i) for i, k in enumerate(keys2)])
+    lib1.add(e2)
+    mw.transform(lib1)
+    e3, s3, lib3 = mk_lib(keys2)
+    mw.transform(lib3)
+    f1, _, fl1 = mk_lib(keys)
+    mk_mw(kind, order, cs).transform(fl1)
+    f2, _, fl2 = mk_lib(keys2)
+    mk_mw(kind, order, cs).transform(fl2)
+    tag = lambda snap_: [(k, v[1:]) for k, v in snap_]
+    return snapshot(e1), snapshot(f1), tag(snapshot(e2)), tag(snapshot(e3)), tag(snapshot(f2))
+
+
 def norm_oracle(keys):
     """lower-case, unique, last value wins, order of first occurrences"""
     res = []     # list of [lowerkey, value]
@@ -250,6 +276,43 @@ def task_custom(lens, olens, cs):
     return rec.result(worlds=len(worlds))
 
 
+def swapcase_sym(k):
+    return mk([c.map(str.swapcase) if not isinstance(c, str) else c.swapcase() for c in chars(k)])
+
+
+def task_reuse(lens, kind, cs=None):
+    """keys2 = the keys of the first entry with the case of every letter swapped (what a cache keyed without regard to
+    case, or by position, would confuse)"""
+    eng = Engine()
+    rec = Recorder(eng)
+    keys = sym_keys(eng, lens)
+    keys2 = [swapcase_sym(k) for k in keys]
+    order = ("b", "A") if kind == "custom" else None
+    E = eng.I.models.eq_simple
+    worlds = eng.run(drv_reuse, [keys, keys2, kind, order, cs])
+
+    def rp(m):
+        import logging
+        logging.disable(logging.CRITICAL)
+        ks = eng.model_value(m, keys)
+        try:
+            a, fa, b, c, fb = drv_reuse(ks, [k.swapcase() for k in ks], kind, order, cs)
+        except Exception as ex:  # noqa
+            return {"input": [ks, kind, cs], "observed": f"raised {type(ex).__name__}: {ex}", "expected": "no exception"}
+        if a == fa and b == fb and c == fb:
+            return None
+        return {"input": [ks, kind, cs], "observed": {"first entry": a, "second entry": b, "second library": c},
+                "expected": {"first entry alone, fresh instance": fa, "second entry alone, fresh instance": fb}}
+    for W in worlds:
+        if W.exc is not None:
+            rec.require(W, True, "reuse-no-exception", rp)
+            continue
+        a, fa, b, c, fb = W.result
+        rec.require(W, b_not(b_all([E(a, fa), E(b, fb), E(c, fb)])), "instance-holds-no-state", rp)
+        rec.witness("instance-reused", W)
+    return rec.result(worlds=len(worlds))
+
+
 def seq_conds(Mo, snaps, seq):
     conds = []
     for name, snap in zip(seq, snaps):
@@ -330,7 +393,7 @@ def main():
     chk.bounds = {"fields": f"0..{nmax} fields, every key a symbolic string of 1 or 2 characters over {KS!r}",
                   "custom order": "0..3 symbolic keys (1-2 chars), case_sensitive in {True, False}"}
     chk.assumptions = ["keys longer than 2 characters / other letters and more fields are outside the claim", "values are distinct tags (values are never inspected by the middlewares)"]
-    chk.expected_vacuity = ["alpha-reordered", "custom-reordered", "order-rejected", "keys-merged"]
+    chk.expected_vacuity = ["alpha-reordered", "custom-reordered", "order-rejected", "keys-merged", "instance-reused"]
     for n in range(nmax, -1, -1):
         for lens in itertools.product((1, 2), repeat=n):
             if n >= 4 and sum(lens) > n + 1:
@@ -351,6 +414,10 @@ def main():
     chk.bounds["sequences"] = f"{len(seqs)} sequences of 2-3 applications (alphabetical, custom order (b, a), normalisation) on entries of 3 fields with 1-char symbolic keys"
     for seq in seqs:
         chk.add_task("seq-" + "-".join(seq), task_seq, lens=(1, 1, 1), seq=seq)
+    chk.bounds["one instance, several entries / libraries"] = "each middleware (custom order (b, A) in both case modes) on a library of two entries - 2..3 fields with 1-char symbolic keys, and the same keys with swapped case - and then on a second library: results equal those of fresh instances"
+    for lens in ((1, 1, 1), (1, 1)):
+        for kind, cs in (("alpha", None), ("norm", None), ("custom", True), ("custom", False)):
+            chk.add_task(f"reuse-{kind}-cs{cs}-{len(lens)}", task_reuse, lens=lens, kind=kind, cs=cs)
     chk.run()
 
 
